@@ -291,8 +291,112 @@ fn signature(tr: &[hooks::Ev]) -> (String, String) {
     (s, handoff.to_string())
 }
 
+/// Race mode: many short trials in which the producer's last write / Drop and the consumer's
+/// switch / await are released from a spin barrier with small random spin offsets, so that the
+/// Drop sweeps across every instant of the consumer's wait sequence. No hook delays, no trace.
+fn c12_race(ctx: &Ctx, r: &mut Rng, begin: &mut dyn FnMut(J)) -> Outcome {
+    use std::sync::atomic::{AtomicUsize, Ordering};
+    use std::sync::Arc;
+    let trials = 400usize;
+    begin(J::obj().set("mode", "race".into()).set("trials", trials.into()));
+    let mut out = Outcome::new();
+    out.hash = format!("race:{}", ctx.case);
+    out.nontrivial = true;
+    out.tag("race_mode");
+    hooks::set_policy(0, 0, false);
+    for t in 0..trials {
+        let inmemory = t % 4 != 3;
+        let nwrites = (t % 3) as usize;
+        let sizes: Vec<usize> = (0..nwrites).map(|i| [1usize, 100, 9000][(t + i) % 3]).collect();
+        let total: u64 = sizes.iter().map(|s| *s as u64).sum();
+        let switch_first = t % 2 == 0;
+        let (pspin, cspin) = (r.below(400) as u32, r.below(400) as u32);
+        let sink = MemSink::new();
+        let sink2 = sink.clone();
+        let (mut buf, mut writer): (TempFileBuffer<Dest>, TempFileBufferWriter<Dest>) = TempFileBuffer::new(inmemory);
+        let gate = Arc::new(AtomicUsize::new(0));
+        let (g1, g2) = (gate.clone(), gate.clone());
+        let (ptx, prx) = std::sync::mpsc::channel::<bool>();
+        let (ctx_, crx) = std::sync::mpsc::channel::<bool>();
+        let sizes2 = sizes.clone();
+        let producer = std::thread::spawn(move || {
+            g1.fetch_add(1, Ordering::SeqCst);
+            while g1.load(Ordering::SeqCst) < 2 {
+                std::hint::spin_loop();
+            }
+            let mut written = 0u64;
+            let mut ok = true;
+            for s in sizes2 {
+                ok &= writer.write_all(&payload(written, s)).is_ok();
+                written += s as u64;
+            }
+            for _ in 0..pspin {
+                std::hint::spin_loop();
+            }
+            drop(writer);
+            let _ = ptx.send(ok);
+        });
+        let consumer = std::thread::spawn(move || {
+            let dest = Dest::Plain(sink2);
+            if switch_first {
+                buf.switch(dest);
+                g2.fetch_add(1, Ordering::SeqCst);
+                while g2.load(Ordering::SeqCst) < 2 {
+                    std::hint::spin_loop();
+                }
+                for _ in 0..cspin {
+                    std::hint::spin_loop();
+                }
+                let mut d = buf.await_real_file();
+                let _ = d.flush();
+            } else {
+                g2.fetch_add(1, Ordering::SeqCst);
+                while g2.load(Ordering::SeqCst) < 2 {
+                    std::hint::spin_loop();
+                }
+                for _ in 0..cspin {
+                    std::hint::spin_loop();
+                }
+                buf.switch(dest);
+                let mut d = buf.await_real_file();
+                let _ = d.flush();
+            }
+            let _ = ctx_.send(true);
+        });
+        let pok = prx.recv_timeout(std::time::Duration::from_secs(30)).unwrap_or(false);
+        let _ = producer.join();
+        if !pok {
+            out.viol("producer_failed_in_race_mode", "", J::U(t as u64));
+            break;
+        }
+        match crx.recv_timeout(std::time::Duration::from_secs(4)) {
+            Ok(_) => {
+                let _ = consumer.join();
+                if let Some((c, d)) = diff_stream(&sink.bytes(), total) {
+                    out.viol(&c, format!("{}:race_mode", if inmemory { "inmemory" } else { "tempfile" }), d.set("trial", t.into()));
+                    break;
+                }
+            }
+            Err(_) => {
+                out.viol(
+                    "wait_did_not_return_after_producer_finished",
+                    format!("{}:await_real_file", if inmemory { "inmemory" } else { "tempfile" }),
+                    J::obj().set("mode", "race".into()).set("trial", t.into()).set("waited_s", 4u64.into()),
+                );
+                crate::proto::emit_end(ctx.case, &out);
+                std::process::exit(78);
+            }
+        }
+        out.count("race_trials", 1);
+    }
+    out
+}
+
 pub fn c12t(ctx: &Ctx, begin: &mut dyn FnMut(J)) -> Outcome {
     let mut r = Rng::derive(ctx.seed, 0xC12, ctx.case);
+    if ctx.case % 6 == 5 && std::env::var_os("BVH_SANITIZER_MODE").is_none() {
+        return c12_race(ctx, &mut r, begin);
+    }
     let inmemory = r.chance(1, 2);
     let dk = *r.pick(&[DestKind::Plain, DestKind::Buffered, DestKind::Short]);
     let nwrites = *r.pick(&[0usize, 1, 2, 5, 20, 60]);
